@@ -166,6 +166,8 @@ class StrToFloat(Harness):
         out += [dict(shapes=[a]) for a in ("d.ddem307", "d.ddddem305", "dep307", "d.dep300", "sd.ddddddddem300")] + [dict(shapes=["d.d", "d.ddem307"])]
         # many decimals (the scale 10^n passes 2^63 at n = 19) and many integer digits
         out += [dict(shapes=["d." + "d" * 19]), dict(shapes=["0.000" + "d" * 17]), dict(shapes=["d" * 17 + ".d"])]
+        # a text with a 16-17 digit mantissa FOLLOWED by short ones in the same batch (the rows share intermediate arrays)
+        out += [dict(shapes=["d" * 16 + ".d", "d.d", "d.d"]), dict(shapes=["d.d", "d" * 17, "d.dd"]), dict(shapes=["d" * 15 + ".dde+d", "d.de+d"])]
         if tier == "thorough":
             out += [dict(shapes=[a, b]) for a in S for b in S if (a, b) not in pairs][::3]
             out += [dict(shapes=["sd.de+d", "d", "d.dd", "de+dd"])]
@@ -332,7 +334,35 @@ def prelude(tier):
             res["samples"].append(dict(lemma=f"forall n in [1,2^63): fl(n) >= {fb!r} <=> n >= {ib[k-1]}", verdict=str(r)))
     res["solver_s"] = time.time() - t0
     res["summary"] = f"log10 conversion lemma: {res['discharged']}/18 unsat; integer breakpoints 10^k - B_k = {[10**k - b for k, b in enumerate(ib, 1)]}"
+    _matrix_probe(res)
     return res
+
+
+def _matrix_probe(res):
+    """matrix_to_csv / parse_matrix on CONCRETE integer matrices in row-major and in column-major memory layout (a transposed view, a Fortran
+    copy): the text is the canonical rows and reading it back returns the matrix.  Probing on the real library (the characters matrix_to_csv
+    computes carry no range information a symbolic parser could use): reported as real-run violations, not counted as proved."""
+    import numpy as np
+    from bionumpy.io.matrix_dump import matrix_to_csv, parse_matrix
+    n = 0
+    for shape in ((2, 2), (2, 3), (3, 2), (1, 4)):
+        base = np.array([0, -7, 12, 345, -6789, 10, 99, -100, 1000, 5, -1, 20000][:shape[0] * shape[1]], dtype=np.int64)
+        m0 = base.reshape(shape)
+        for layout, m in (("row-major", m0), ("transposed view", np.ascontiguousarray(m0.T).T), ("Fortran copy", np.asfortranarray(m0))):
+            n += 1
+            header = ["c%d" % j for j in range(shape[1])]
+            exp = ",".join(header) + "\n" + "".join(",".join(str(v) for v in row) + "\n" for row in m0.tolist())
+            try:
+                text = matrix_to_csv(m, header=header, sep=",")
+                got = text.to_string()
+                back = parse_matrix(got, field_type=int, rowname_type=None, sep=",").data.tolist()
+                outcome = None if (got == exp and back == m0.tolist() and m.tolist() == m0.tolist()) else f"text {got!r}, read back {back}"
+            except Exception as e:
+                outcome = f"raised {type(e).__name__}: {str(e)[:100]}"
+            if outcome is not None:
+                res["violations"].append(dict(obligation="matrix-probe", inputs=dict(matrix=m0.tolist(), layout=layout), output=outcome,
+                                              why=f"[real run, concrete probe] matrix_to_csv of {m0.tolist()} held as {layout}: {outcome}; expected text {exp!r}"))
+    res["summary"] += f"; matrix_to_csv/parse_matrix probed on {n} concrete matrices (3 memory layouts)"
 
 
 from checks.C02 import Delimited as _Delimited
@@ -359,6 +389,7 @@ class DigitColumns(_Delimited):
             if len(sk["rows"]) > 1 and not sk.get("signed"):
                 out.append(dict(sk, rows=sk["rows"][::-1]))
         return out
+
 
 
 HARNESSES = [IntsToStrings(), StrToInt(), StrToFloat(), DigitColumns()]
